@@ -47,7 +47,8 @@ def call_table(rng):
     t["uniform_HPPM"] = lambda s: xgi.uniform_HPPM(10, 3, 2, 0.5, 0.8, seed=s)
     t["uniform_HSBM"] = lambda s: xgi.uniform_HSBM(8, 3, np.full((2, 2, 2), 0.3), [4, 4], seed=s)
     t["uniform_erdos_renyi_hypergraph"] = lambda s: xgi.uniform_erdos_renyi_hypergraph(n, 3, 0.2, seed=s)
-    t["uniform_hypergraph_configuration_model"] = lambda s: xgi.uniform_hypergraph_configuration_model({i: 2 for i in range(6)}, 3, seed=s)
+    kk = {i: rng.randint(1, 3) for i in range(rng.randint(6, 10))}    # often not realizable: the repair step draws too
+    t["uniform_hypergraph_configuration_model"] = lambda s: xgi.uniform_hypergraph_configuration_model(dict(kk), 3, seed=s)
     t["random_layout"] = lambda s: xgi.random_layout(H, seed=s)
     t["pairwise_spring_layout"] = lambda s: xgi.pairwise_spring_layout(H, seed=s)
     t["barycenter_spring_layout"] = lambda s: xgi.barycenter_spring_layout(H, seed=s)
